@@ -6,7 +6,7 @@ From PV Require Import Extract.RunC19.
 From PV Require Import Extract.RunC12.
 From PV Require Import Extract.RunC09.
 From PV Require Import Extract.RunC13.
-  Validators.TableStruct Extract.Codec Extract.RunC06.
+From PV Require Import Extract.RunC06.
 Import ListNotations.
 Local Open Scope N_scope.
 
